@@ -50,6 +50,11 @@ def rule_sort(prog, res, floors=(4, 49)):
         _sort_rule(prog, res, f, ("satellite_id",))
     for f in sig:
         _sort_rule(prog, res, f, ("satellite_id", "signal_id"))
+    # the fragment decoders mirror the write loops: every row of a read loop is read
+    for f in sat + sig:
+        d = prog.fn(f.path.rsplit("::", 1)[0] + "::decode")
+        if d is not None:
+            _read_loops_complete(prog, res, d)
     g = prog.fn("df::dfs::df_msg1230_biases::encode")
     if g is not None:
         _sort_rule(prog, res, g, ("signal_id",))
@@ -125,6 +130,28 @@ def _sort_rule(prog, res, f, keys):
         if root is None or not _is_clone_iter(fa, root, clone_local, x):
             okl = False
     res.ob("S-sort", "%s | the written elements are drawn from the sorted clone" % tag, okl, "", f.loc)
+    # every row is written: in each write loop the element write dominates every back edge (an iteration ends by writing its element or by
+    # returning the write's error; a `continue` or a filter in front of the write would leave out rows that the masks announce)
+    loops = f.loops()
+    backs = {}
+    for (src_, h_) in f.back_edges():
+        backs.setdefault(h_, []).append(src_)
+    okw = True
+    dw = ""
+    for b, t in enc:
+        if callee_of(t) == "df::assembler::Assembler::put" and not _mentions_elem(fa, b):
+            continue
+        inner = None
+        for h_, body in loops.items():
+            if b in body and (inner is None or len(body) < len(loops[inner])):
+                inner = h_
+        if inner is None:
+            continue
+        for l_ in backs.get(inner, []):
+            if not f.dominates(b, l_):
+                okw = False
+                dw = "the write at line %s can be skipped within its loop (back edge from block %d)" % (t.get("line"), l_)
+    res.ob("S-sort", "%s | every row of a write loop is written (the write dominates the loop's back edges)" % tag, okw, dw, f.loc)
     # comparator
     cmp = a[1]
     okk = False
@@ -149,6 +176,35 @@ def _sort_rule(prog, res, f, keys):
             cfa, paths = cm
             okk, d = _check_comparator(prog, cfa, paths, fields, keys)
     res.ob("S-sort", "%s | comparator orders by %s with arguments (a, b)" % (tag, " then ".join(keys)), okk, d, f.loc, sample=d)
+
+
+def _read_loops_complete(prog, res, d):
+    """S-read: in a fragment decoder every iteration of a loop that reads a field reads it (the field decode dominates the loop's back edges):
+    the number of fields consumed is the number of rows, whatever the rows contain."""
+    res.fn(d)
+    loops = d.loops()
+    backs = {}
+    for (src_, h_) in d.back_edges():
+        backs.setdefault(h_, []).append(src_)
+    ok = True
+    detail = ""
+    n = 0
+    for b, t in d.calls():
+        c = callee_of(t) or ""
+        if not ((c.startswith("df::dfs::") and c.endswith("::decode")) or c == "df::parser::Parser::parse"):
+            continue
+        inner = None
+        for h_, body in loops.items():
+            if b in body and (inner is None or len(body) < len(loops[inner])):
+                inner = h_
+        if inner is None:
+            continue
+        n += 1
+        for l_ in backs.get(inner, []):
+            if not d.dominates(b, l_):
+                ok = False
+                detail = "the read at line %s can be skipped within its loop (back edge from block %d)" % (t.get("line"), l_)
+    res.ob("S-read", "%s | every row of a read loop is read (the field decode dominates the loop's back edges)" % d.path, ok, detail or "%d read loops" % n, d.loc)
 
 
 def _mentions_elem(fa, b):
